@@ -614,7 +614,8 @@ def install_data(e):
                        z3.And(ctl_case, wire_is(c, old),
                               z3.Not(z(c.getf(ws, "connected"), "bool")), ac1 == ac0)),
             z3.Implies(d.opcode != 8, z3.And(ac1 == ac0, z(c.getf(ws, "connected"), "bool") == conn0)),
-            WSI(c, ws),
+            WSI(c, ws), same_handle(c.getf(ws, "sock"), old.getf(ws, "sock")),
+            z(c.ghost["closed_handles"]) == z(old.ghost["closed_handles"]),
             z3.Implies(z3.Or(d.opcode == 9, d.opcode == 10),
                        z3.And(z(a["control_frame"], "bool"), ctl_case, wire_is(c, old))),
             z3.Or(isdata, d.opcode == 8, d.opcode == 9, d.opcode == 10))
@@ -622,14 +623,16 @@ def install_data(e):
     def rdf_proto_when(c, old, a):
         return True
 
+    def tr_same(c, old, ws):
+        return z3.And(same_handle(c.getf(ws, "sock"), old.getf(ws, "sock")), z(c.ghost["closed_handles"]) == z(old.ghost["closed_handles"]))
+
     def rdf_proto(c, old, a, exc):
         # the offending frame was consumed; reassembly state and parser state stay consistent; and the frame really was
         # inadmissible (RFC-admissible frames in a legal sequence are never refused)
         ws, fb, cf = parts(c, a)
         d = last(c)
         skip = z(c.getf(cf, "skip_utf8_validation"), "bool")
-        mo_before = z(c.ghost["$m_open_before_last"], "bool") if "$m_open_before_last" in c.ghost else None
-        return z3.And(FB(c, fb), CF(c, cf))
+        return z3.And(FB(c, fb), CF(c, cf), WSI(c, ws), tr_same(c, old, ws))
 
     def rdf_payload(c, old, a, exc):
         ws, fb, cf = parts(c, a)
@@ -637,17 +640,25 @@ def install_data(e):
         skip = z(c.getf(cf, "skip_utf8_validation"), "bool")
         mop, md = z(c.ghost["m_op"]), z(c.ghost["m_data"])
         return z3.And(FB(c, fb), CF(c, cf), z3.BoolVal(fire is not True), mop == 1, z3.Not(skip), z3.Not(smt.wf_utf8(md)),
-                      z3.Not(z(c.ghost["m_open"], "bool")))
+                      z3.Not(z(c.ghost["m_open"], "bool")), WSI(c, ws), tr_same(c, old, ws))
 
     def rdf_fail(c, old, a, exc):
         ws, fb, cf = parts(c, a)
-        return z3.And(FB(c, fb), CF(c, cf), WSI(c, ws), z(c.ghost["auto_close"]) <= z(old.ghost["auto_close"]) + 1)
+        if issubclass(exc.cls, X.WebSocketConnectionClosedException):
+            had = z3.Not(zn(old.getf(ws, "sock")))
+            # lost while reading: transport released; refused while writing the pong / close reply: transport untouched
+            tr = z3.Or(z3.And(owner_closed(c, ws), z(c.ghost["closed_handles"]) == z(old.ghost["closed_handles"]) + z3.If(had, 1, 0)),
+                       z3.And(same_handle(c.getf(ws, "sock"), old.getf(ws, "sock")), z(c.ghost["closed_handles"]) == z(old.ghost["closed_handles"])))
+        else:
+            tr = z3.And(same_handle(c.getf(ws, "sock"), old.getf(ws, "sock")), z(c.ghost["closed_handles"]) == z(old.ghost["closed_handles"]))
+        return z3.And(FB(c, fb), CF(c, cf), WSI(c, ws), z(c.ghost["auto_close"]) <= z(old.ghost["auto_close"]) + 1, tr)
 
     def rdf_inv(c, fr, entry):
         ws = fr.locals["self"]
         fb, cf = c.getf(ws, "frame_buffer"), c.getf(ws, "cont_frame")
         return z3.And(FB(c, fb), CF(c, cf), wire_is(c, entry), WSI(c, ws),
-                      z(c.ghost["auto_close"]) == z(entry.ghost["auto_close"]),
+                      z(c.ghost["auto_close"]) == z(entry.ghost["auto_close"]), tr_same(c, entry, ws),
+                      z(c.getf(ws, "connected"), "bool") == z(entry.getf(ws, "connected"), "bool"),
                       z(c.ghost["draws"]) >= z(entry.ghost["draws"]) + z(c.ghost["npings"], "int"), z(c.ghost["npings"], "int") >= 0)
 
     GH = ["rpos", "rx_calls", "fstart", "lastf", "wire", "tx_calls", "draws", "m_open", "m_op", "m_data", "pong_acc", "npings", "auto_close"]
